@@ -39,6 +39,8 @@ const (
 	vPrepended
 	vOther
 	vEmpty
+	vAppendedGarbage // one non-zero byte appended
+	vAppendedZero    // one zero byte appended (inside the zero padding of a short last slice, or a new window of zeros)
 	nVariants
 )
 
@@ -77,6 +79,10 @@ func (m *c14Model) variant(f, w int) ([]byte, bool) {
 		return m.data[(f+1)%m.nFiles], true
 	case vEmpty:
 		return []byte{}, true
+	case vAppendedGarbage:
+		return append(append([]byte{}, d...), 0xC3), true
+	case vAppendedZero:
+		return append(append([]byte{}, d...), 0), true
 	}
 	panic("bad variant")
 }
@@ -254,15 +260,20 @@ func (m *c14Model) capacity(s c14State) int {
 
 func c14Build(name string, seed int64) *c14Model {
 	m := &c14Model{name: name, seed: seed}
-	all := []int{vOrig, vMissing, vFirstChanged, vLastDropped, vPrepended, vOther, vEmpty}
+	all := []int{vOrig, vMissing, vFirstChanged, vLastDropped, vPrepended, vOther, vEmpty, vAppendedGarbage, vAppendedZero}
 	switch name {
-	case "p2small", "p2large", "p2huge":
-		cfg := scen.P2Config{Sizes: []int{11, 6}, Slice: 4, Blocks: 4, Class: "uniq"}
+	case "p2small", "p2large", "p2huge", "p2four":
+		// small model: a slice-aligned file and a file with a short last slice, both ending in zero bytes, so that
+		// "last byte dropped" / "zero byte appended" are length-only damage that leaves every slice in place
+		cfg := scen.P2Config{Sizes: []int{12, 6}, Slice: 4, Blocks: 4, Class: "trailzero"}
 		if name == "p2large" {
 			cfg = scen.P2Config{Sizes: []int{11, 6, 9}, Slice: 4, Blocks: 8, Class: "uniq"}
 		}
 		if name == "p2huge" {
 			cfg = scen.P2Config{Sizes: []int{11, 6, 9}, Slice: 4, Blocks: 16, Class: "uniq"}
+		}
+		if name == "p2four" {
+			cfg = scen.P2Config{Sizes: []int{5, 6, 9, 3}, Slice: 4, Blocks: 4, Class: "uniq"}
 		}
 		s, err := scen.GetP2(cfg, seed)
 		if err != nil {
@@ -499,7 +510,7 @@ func init() {
 	core.Register(&core.Prop{
 		ID:    "C14",
 		Level: "model_checking",
-		Rule: "explicit-state breadth-first search to closure of the directory-state graph. PAR2 small: 2 files x 7 contents {original, missing, first byte changed, last byte dropped, one byte prepended, other file's content, empty} x 3 recovery files {present, absent}; PAR2 large: 3 files x 7 contents x 4 recovery files; PAR1: 3 files x 5 contents x 2 volumes; thorough adds 3 files x 7 contents x 5 recovery files (16 blocks) and PAR1 4 files x 5 contents x 3 volumes. " +
+		Rule: "explicit-state breadth-first search to closure of the directory-state graph. PAR2 small: 2 files (one slice-aligned, both ending in zero bytes) x 9 contents {original, missing, first byte changed, last byte dropped, one byte prepended, other file's content, empty, garbage byte appended, zero byte appended} x 3 recovery files {present, absent}; PAR2 large: 3 files x 9 contents x 4 recovery files; PAR1: 3 files x 5 contents x 2 volumes; thorough adds 3 files x 9 contents x 5 recovery files (16 blocks), 4 files x 9 contents x 3 recovery files, and PAR1 4 files x 5 contents x 3 volumes. " +
 			"Events: damage(f,w), restore(f), delete/restore recovery file, Verify, Repair, Repair+double-check. Every Verify/Repair transition executes the real code on a fresh filesystem built from the state (gopar keeps no state between calls). Invariants on every transition: Verify leaves the state unchanged and gives equal results for equal states; successful Repair => all original, Verify clean, a further Repair in both modes writes nothing and lists nothing; failed Repair => every file holds its previous content or its original; from every reachable state, restoring all recovery files and repairing reaches the original whenever capacity suffices. non-trivial = states in which Repair wrote files or failed",
 		Assumptions: []string{"state abstraction = exact directory contents (no merging), so no hidden futures are lost", "gopar keeps no state between top-level calls (each builds its decoder from disk)"},
 		NewCase:     func() interface{} { return &c14Case{} },
@@ -508,6 +519,7 @@ func init() {
 			g.Emit(&c14Case{Model: "p2small"})
 			g.Emit(&c14Case{Model: "p1"})
 			if g.Thorough() {
+				g.Emit(&c14Case{Model: "p2four"})
 				g.Emit(&c14Case{Model: "p2huge"})
 				g.Emit(&c14Case{Model: "p1large"})
 			}
